@@ -347,12 +347,21 @@ class Interp:
         cell = fr.cell(local)
         path = ()
         win = None
+        variant_base = None
         for p in proj:
             k = p[0]
             if k == 'field':
-                path = path + (p[1],)
+                if variant_base is not None:
+                    # coroutine state: the saved locals of suspension point N live in their own storage,
+                    # distinct from the captured upvars (`.i` without downcast) and from other variants
+                    path = path + (variant_base + p[1],)
+                    variant_base = None
+                else:
+                    path = path + (p[1],)
             elif k == 'downcast':
-                pass
+                variant_base = None
+                if p[1].startswith('variant#'):
+                    variant_base = 64 + 64 * int(p[1][8:])
             elif k == 'deref':
                 ptr = self.read(cell, path)
                 if not isinstance(ptr, Ptr):
@@ -893,11 +902,11 @@ class Interp:
                 self.call_body(self.bodies[name], [Ptr(cell)])
                 v = cell.val
             for f in v.fields:
-                if isinstance(f, (Adt, Seq)):
+                if isinstance(f, (Adt, Seq)) or hasattr(f, 'on_drop'):
                     self.drop_value(f)
         elif isinstance(v, Seq):
             for f in v.fields:
-                if isinstance(f, (Adt, Seq)):
+                if isinstance(f, (Adt, Seq)) or hasattr(f, 'on_drop'):
                     self.drop_value(f)
         elif hasattr(v, 'on_drop'):
             v.on_drop(self)
@@ -1044,6 +1053,12 @@ class Interp:
                     if m:
                         self.closure_bodies.setdefault(m.group(1), b)
         b = self.closure_bodies.get(span)
+        if b is None and span.startswith('{coroutine@'):
+            # `async {}` blocks: the value is printed as {coroutine@span}, the body's receiver as {async block@span}
+            for kind in ('{async block@', '{async closure@'):
+                b = self.closure_bodies.get(kind + span[len('{coroutine@'):])
+                if b is not None:
+                    return b
         if b is None and span.startswith('{coroutine@'):
             # `async fn`: the coroutine is created in the fn itself and its poll body is `<fn>::{closure#0}`, whose
             # receiver type is printed as `{async fn body of ..}` instead of the span
